@@ -547,6 +547,14 @@ fn gen_bytes(input: &Value) -> Vec<u8> {
             let mut v = vec![131u8, 80];
             v.extend_from_slice(&(inner.len() as u32).to_be_bytes());
             v.extend_from_slice(&z);
+            if let Some(t) = input.get("after").and_then(|x| x.as_array()) { v.extend(t.iter().map(|b| b.as_u64().unwrap() as u8)); }
+            if let Some(t) = input.get("wrap_tuple2_then").and_then(|x| x.as_array()) {
+                // {Compressed, <term bytes>}: 131 104 2 <80 ...> <term>
+                let mut w = vec![131u8, 104, 2];
+                w.extend_from_slice(&v[1..]);
+                w.extend(t.iter().map(|b| b.as_u64().unwrap() as u8));
+                return w;
+            }
             v
         }
         "zip_bomb" => {
